@@ -208,12 +208,12 @@ CONFIG = {
         "copy phase: C03_extended_closure / C03_depth_own_graph / C03_depth_nothing_outside / C03_nothing_outside are stated over C01's transition system (Model/CopySpec.v): extended_copy_run = ONE accepted run in which every root found is dispatched (c_root + c_xroots: one syncutil.Go, shared tracker/proxy/limiter), returned success, link-closed initial destination; closure below every root and 'writes only below dispatched roots' are proved here from C01's invariants (Proofs/FindRootsCopy.v closure_all_roots, run_writes_below_roots) for any number of roots and every accepted interleaving. That the real ExtendedCopyGraph's visible events form an accepted trace of that system is checked by C01's/C02's correspondence, not here: harness/copyh records ExtendedCopyGraph / ExtendedCopy runs (modes x / X, instrumented stores, controlled schedules under testing/synctest, latencies) and feeds them to the CopySpec acceptor with c_root+c_xroots = the roots above the node (bin/check C01); the C03 oracle checks the end-to-end statement on the real ExtendedCopy/ExtendedCopyGraph with Concurrency 0-4 under native scheduling, empty and prefilled (link-closed) destinations. The *_gen forms keep the closure facts as Section hypotheses copy_closure_C01 / copy_only_C01; mt_consistent is C01's hypothesis for digest-keyed destinations",
         "acyclic_source / pred_is_inverse_link are hypotheses of the generic theorems only; for sources backed by graph.Memory (memory, OCI layout, file store) they are DISCHARGED by composition with C07 (Proofs/FindRootsMem.v, FindRootsAll.v: C03_roots_unlimited_memory_backed, C03_property_unlimited/_depth/_filtered_memory_backed). Left there: backed_by (the store serves graph.Memory's predecessor sets: the harness compares every served table with the generator's edge list on every case), links_agree (C07's content table and C01's g_succ are the same content.Successors), content_acyclic (content addressing), not_foreign (the given node and its ancestors are stored content), C01's mt_consistent and extended_copy_run",
         "served_ok (C03_filter_exact; needed: C03_filter_exact_refuted_embedded): pushing content to a memory/file store with a descriptor whose annotations/artifactType are not the manifest's is a caller inconsistency outside the property; a reloaded OCI layout serves plain predecessors since fix fda86b1 (audit F1, generated: embedded descriptors with their own fields). a served descriptor may lack artifactType/annotations, but what it carries is the manifest's; a ReferrerLister source (remote repository: Referrers API response / referrers-tag index) serves complete referrer descriptors (artifactType = effective type, annotations = the manifest's) as the distribution spec requires -- the first filter does not fetch there. The harness registry serves such descriptors; generators keep descriptors consistent",
-        "a user-supplied opts.FindPredecessors set before the filter calls IS modelled (find_preds_custom: every filter takes the generic branch; C03_any_find_predecessors_unlimited/_depth hold for any function, C03_custom_filter_exact) and generated (two variants on local sources); failing source operations ARE modelled (find_roots_e: countdown over Predecessors / Referrers / the Fetch of a missing field; C03_errors_surface, C03_no_fault_agrees) and compared at the exact operation (FE cases, local and remote sources; a registry answering 403 between two pages is exercised by the oracle only); regular expressions are their MatchString function (str -> bool), quantified over; Go regexp is evaluated by the harness into the truth table the model receives",
+        "a user-supplied opts.FindPredecessors set before the filter calls IS modelled (find_preds_custom: every filter takes the generic branch; C03_any_find_predecessors_unlimited/_depth hold for any function, C03_custom_filter_exact) and generated (two variants on local sources); failing source operations ARE modelled (find_roots_e: countdown over Predecessors / Referrers / the Fetch of a missing field; C03_errors_surface, C03_no_fault_agrees) and compared at the exact operation (FE cases, local and remote sources, also below a caller-supplied FindPredecessors: find_roots_custom_e / C03_errors_surface_custom; C03_errors_total: with the runner's fuel the outcome is a root set or an error; a registry answering 403 between two pages is exercised by the oracle only); regular expressions are their MatchString function (str -> bool), quantified over; Go regexp is evaluated by the harness into the truth table the model receives",
         "encoding/json decoding of artifactType / config.mediaType / annotations is modelled as field selection (s_mat, s_mcfg, s_mann)",
         "for a remote repository the source's predecessor relation is the referrers (subject) relation only (Repository.Predecessors = Referrers); HTTP, pagination and the tag-schema fallback are exercised through an in-memory registry, not modelled (C15 models the page loop): the client's ReferrerListPageSize (unset / smaller / equal / larger), the registry's page cap, short pages with Link and server-side vs client-side artifactType filtering are drawn independently; a predecessor the source does not serve is reported (predecessors-missing); errors of Predecessors/Fetch are not modelled (findRoots returns them unchanged)",
         "regenerated from extendedcopy.go on every run (Generated/GC03.v) and EXECUTED by the extracted runner: the media type case lists of FilterArtifactType / FilterAnnotation / fetchArtifactType (mtswitch), the guarded return rules of fetchArtifactType per case (c03fetchrules, interpreted by fetch_artifact_type), the depth arithmetic of findRoots (c03findroots: start depth, stop condition, pushed depth), the keep closures and fetch guards of both filters (c03filterkeep); C03_runner_is_model / C03_runner_filters_are_model / fetch_artifact_type_table prove them equal to the functions the theorems speak about, so an edit of these pieces breaks layer T or P. Hand-written and tied by correspondence + AST anchors only: the loop skeleton of findRoots (pop, visited, push order), the ReferrerLister branch, fetchAnnotations",
     ],
-    "level_text": "(extension round: failing source operations, caller-supplied FindPredecessors, call sequence, composition with C07 + C01 into the property's own sentences for graph.Memory-backed sources, order independence of the root set) Coq theorems for every source graph, served predecessor order, start node, Depth and filter stack about a model of findRoots (stack DFS, visited set, depth-tagged frames), FilterArtifactType/FilterAnnotation (fetch-on-missing-field) and the ExtendedCopy wrapper: roots = tops of the upward closure and cover it (Depth<=0), two-sided depth bound, termination, filter exactness w.r.t. manifest content, end-to-end closure modulo C01's copy-closure hypothesis; tied to the code by hook-level differential runs (findRoots, opts.FindPredecessors, fetchArtifactType, ExtendedCopy) and an independent oracle on ExtendedCopy/ExtendedCopyGraph over memory, OCI (fresh and reopened), file and remote (Referrers API with pagination, referrers tag schema) sources",
+    "level_text": "(second extension round: C03_direct_predecessors_covered -- for any Depth every followed direct predecessor of the given node lies under a root, so Depth >= 1 never loses a direct referrer; error model below a caller-supplied FindPredecessors; exhaustive small-scope stream with filters) (extension round: failing source operations, caller-supplied FindPredecessors, call sequence, composition with C07 + C01 into the property's own sentences for graph.Memory-backed sources, order independence of the root set) Coq theorems for every source graph, served predecessor order, start node, Depth and filter stack about a model of findRoots (stack DFS, visited set, depth-tagged frames), FilterArtifactType/FilterAnnotation (fetch-on-missing-field) and the ExtendedCopy wrapper: roots = tops of the upward closure and cover it (Depth<=0), two-sided depth bound, termination, filter exactness w.r.t. manifest content, end-to-end closure modulo C01's copy-closure hypothesis; tied to the code by hook-level differential runs (findRoots, opts.FindPredecessors, fetchArtifactType, ExtendedCopy) and an independent oracle on ExtendedCopy/ExtendedCopyGraph over memory, OCI (fresh and reopened), file and remote (Referrers API with pagination, referrers tag schema) sources",
     "level_note": "oracle-only clauses: byte identity (the theorems speak of node membership, C01's has); the tag of ExtendedCopy in substance (C03_tagged / C03_error_origin are statements about the wrapper model Resolve / FindPredecessors / copy / Tag; its correspondence reads the destination's references and the CopyError op/origin of the first failing step; the Tag call is outside C01's transition system); the given node must be stored in the source: a foreign (non-distributable) layer as start node is outside the quantifier (never stored, pred_is_inverse_link is over foreign-cut links) and is not generated; errors of the root-finding phase are modelled (find_roots_e) and compared; errors of the copy phase are C02's -- the harness injects one failing source operation / registry request per fault case into ExtendedCopyGraph and demands error-or-full-closure; a finding made with Raw (store map order) reads may need several replays with Depth > 0; copy phase = hypothesis copy_closure_C01 (C01); remote sources through an in-memory read-only registry only; concurrency of the copy phase is exercised (Concurrency 0-4) but not modelled here; Docker manifests have no artifact type (effective type \"\")",
     "technique": "machine-checked proof in Coq (loop invariants of the stack DFS, for every served predecessor order) + model/implementation correspondence + independent oracle",
     "explanation": "small-scope exhaustive stream: every predecessor graph on <= 4 nodes (5 in thorough, sampled orders) x every served order x start x Depth 0..3 on a stub source; compared observables: root set, call sequence of FindPredecessors, opts.FindPredecessors output (ids, filled artifactType, annotations), fetchArtifactType, outcome under the k-th failing operation, ExtendedCopy wrapper tags; coverage floors per source kind / stream (harness exit 4 = layer R); every findRoots and copy call under a re-confirmed watchdog (a call that ignores cancellation is abandoned and reported). (thorough: sampled cases re-evaluated inside Coq with vm_compute against the extracted runner) loop-invariant proofs over the DFS of findRoots for every served order; filter exactness by induction over the filter stack; model vs implementation on findRoots (hook), opts.FindPredecessors and fetchArtifactType for random DAGs x source kinds x descriptor styles; oracle from the generator's inverse edge list and manifest fields on findRoots, ExtendedCopyGraph and ExtendedCopy",
